@@ -87,6 +87,37 @@ def templates(tier="quick"):
         ops, b = _ops(v, ["top", "out.mod"])
         T.append(scenario("c14/dyndep/" + name, "c14", [v], ops=ops, init=[b], depth=d, tags=["spelling", name, "dyndep"],
                           twin_variants=[tw]))
+    for name, sp in sorted(SPELLINGS.items()):
+        if name in ("trailing_dot", "trailing_slash"):
+            continue   # (a file is not a directory)
+        # S3b the dyndep *binding* spelled oddly while the input list names the file plainly (and the other way round)
+        for where in ("binding", "input"):
+            o = Stmt("out", ex=["in"], oo=["dd"], dyndep="dd", extra_reads=["m/x"])
+            if where == "binding":
+                o.dyndep_spelled = sp("dd")
+            st = [Stmt("dd", ex=["dd.in"], copy=True), Stmt("m/x", ex=["s"]), o, Stmt("top", ex=["out"])]
+            v = Variant("v0", st, extra_files={"dd.in": dyndep_text([("out", [], ["m/x"], False)])}, defaults=["top"],
+                        spell={"dd": sp("dd")} if where == "input" else {})
+            tw = unspelled_twin(v)
+            for ts in tw.stmts:
+                if hasattr(ts, "dyndep_spelled"):
+                    del ts.dyndep_spelled
+            ops, b = _ops(v, ["top"])
+            T.append(scenario("c14/dyndep_%s_spelled/%s" % (where, name), "c14", [v], ops=ops, init=[b], depth=d, tags=["spelling", name, "dyndep"],
+                              twin_variants=[tw]))
+        # S2b a plain depfile that spells a generated header oddly, in front of `-t missingdeps` (which reads depfiles with a
+        # loader of its own): what the tool reports does not depend on the spelling
+        o = Stmt("obj/x.o", ex=["x.c"], hidden=["gen/g.h", "h"], depfile=True)
+        o.dep_spell = {"gen/g.h": sp("gen/g.h"), "h": sp("h")}
+        v = Variant("v0", [Stmt("gen/g.h", ex=["g.in"]), o, Stmt("exe", ex=["obj/x.o"], oo=["gen/g.h"])])
+        ops, b = _ops(v, ["exe"])
+        md = tool_op("readonly", ["-t", "missingdeps"])
+        md["no_expand"] = True
+        md["compare_output_with_twin"] = True
+        ops.append(md)
+        T.append(scenario("c14/missingdeps_depfile/" + name, "c14", [v], ops=ops, init=[b], depth=d, tags=["spelling", name, "depfile", "tools"],
+                          twin_variants=[unspelled_twin(v)]))
+
     # S9 the manifest named on the command line (-f) spelled oddly, in a project whose manifest is regenerated
     def regen(name, ver):
         return Variant(name, [Stmt("build.ninja", ex=["build.ninja.in"], generator=True, copy=True),
